@@ -61,9 +61,11 @@ structure Cache where
   keys : List Tag               -- keys of `lastMessages`
   strs : List (Tag × Msg)       -- `lastMessageStrings`; the first entry of a tag is the current one
   vip  : List (String × Msg)    -- viper: config file as read at start-up + every `viper.Set` so far
+  pending : Bool                -- the delayed-save timer is armed (a save will fire within the debounce)
 deriving Repr
 
-def Cache.init (cfg : List (String × Msg)) : Cache := { keys := [], strs := [], vip := cfg }
+/-- the timer is armed when the updater starts -/
+def Cache.init (cfg : List (String × Msg)) : Cache := { keys := [], strs := [], vip := cfg, pending := true }
 
 /-- `lastMessageStrings[t]` -/
 def strOf (strs : List (Tag × Msg)) (t : Tag) : Msg := (strs.lookup t).getD ""
@@ -97,7 +99,7 @@ def vipSet (low : String → String) (c : Cache) (v : List (String × Msg)) (k :
 no-save list -/
 def saveStep (low : String → String) (c : Cache) : Cache :=
   let keys := saveAdds.foldl insertKey c.keys
-  { c with keys := keys, vip := keys.foldl (vipSet low c) c.vip }
+  { c with keys := keys, vip := keys.foldl (vipSet low c) c.vip, pending := false }
 
 /-- the settings a save writes, without the bookkeeping keys; first entry of a key wins -/
 def dedupKeys : List (String × Msg) → List String → List (String × Msg)
@@ -115,7 +117,9 @@ def step (low : String → String) (c : Cache) : Ev → Cache × List Out
     let out := if noPublish.contains t || m == "" then [] else [Out.live t m]
     if t == "NEWDASTARD" then (c, out) else
     if strOf c.strs t != m then
-      ({ c with keys := insertKey c.keys t, strs := (t, m) :: c.strs }, out)
+      -- a changed topic that is not on the no-save list (re)arms the delayed-save timer
+      ({ c with keys := insertKey c.keys t, strs := (t, m) :: c.strs,
+                pending := c.pending || !noSave.contains (low t) }, out)
     else (c, out)
   | .save => let c' := saveStep low c; (c', [.saved (savedView low c'.vip)])
 
@@ -339,6 +343,25 @@ def savedOuts : List Out → List (List (String × Msg))
   | .saved l :: r => l :: savedOuts r
   | _ :: r => savedOuts r
 
+/-- first persistent topic whose latest value is not in the saved view: `(tag, saved, latest)` -/
+def savedMiss (low : String → String) (h : List Ev) (view : List (String × Msg)) : Option (Tag × String × String) :=
+  ((tagsOf h).find? (fun t => persistent low t && view.lookup (low t) != lastUpd h t)).map
+    fun t => (t, rehex ((view.lookup (low t)).getD "<absent>"), rehex ((lastUpd h t).getD ""))
+
+/-- what the save windows of a history exercised: (several persistent topics changed in one window,
+a topic returned to its saved value inside a window in which another topic changed) -/
+def windowStats (low : String → String) : List HOp → List (Tag × Msg) → List (Tag × Msg) → List Tag → Bool →
+    Bool × Bool → Bool × Bool
+  | [], _, _, _, _, acc => acc
+  | .s :: r, cur, _, changed, rev, acc =>
+      windowStats low r cur cur [] false (acc.1 || changed.length ≥ 2, acc.2 || (rev && changed.length ≥ 1))
+  | .a :: r, cur, sv, changed, rev, acc => windowStats low r cur sv changed rev acc
+  | .u t m :: r, cur, sv, changed, rev, acc =>
+      if !persistent low t || cur.lookup t == some m then windowStats low r cur sv changed rev acc else
+      let back := sv.lookup t == some m
+      let changed' := if back then changed.filter (· != t) else if changed.contains t then changed else t :: changed
+      windowStats low r ((t, m) :: cur) sv changed' (rev || back) acc
+
 def runH (cfg : List (String × Msg)) (ops : List HOp) (impl : List Out) : Verdict :=
   let evs := evsOf ops
   let mo := (run String.toLower (Cache.init cfg) evs).2.map canonOut
@@ -352,7 +375,11 @@ def runH (cfg : List (String × Msg)) (ops : List HOp) (impl : List Out) : Verdi
     .viol "C16:sendall-not-latest a SENDALL reply is not exactly the latest message of every published topic"
   else if valid && lowerInjB String.toLower (tagsOf evs ++ saveAdds) &&
       !((savePrefixes [] evs).zip (savedOuts io)).all (fun hv => chkSaved String.toLower hv.1 hv.2) then
-    .viol "C16:saved-not-latest the saved configuration lacks the latest value of a persistent topic"
+    let bad := ((savePrefixes [] evs).zip (savedOuts io)).findSome? fun hv => savedMiss String.toLower hv.1 hv.2
+    let d := match bad with
+      | some (t, sv, lt) => s!" (topic {t}: file has {sv}, latest is {lt})"
+      | none => ""
+    .viol ("C16:saved-not-latest after the save points the configuration file lacks the latest value of a persistent topic" ++ d)
   else if mo != io then
     let i := (firstDiff mo io 0).getD 0
     .diff s!"history event {i}: model=[{(mo[i]?.map showOut).getD "-"}] impl=[{(io[i]?.map showOut).getD "-"}]"
@@ -371,6 +398,8 @@ def runH (cfg : List (String × Msg)) (ops : List HOp) (impl : List Out) : Verdi
       ++ (if ups.any (fun u => noSave.contains u.1.toLower) then ["nosave"] else [])
       ++ (if ups.any (fun u => u.1 == "NEWDASTARD") then ["newdastard"] else [])
       ++ (if (savedOuts io).length > 0 then ["saved"] else [])
+      ++ (let w := windowStats String.toLower ops [] [] [] false (false, false)
+          (if w.1 then ["window-multi"] else []) ++ (if w.2 then ["window-revert"] else []))
       ++ (if cfg.length > 0 then ["oldcfg"] else []))
 
 /-! ### crash cases -/
